@@ -78,15 +78,17 @@ theorem SPart.wellB_sound : ∀ (p : SPart), p.wellB = true → p.Well
 
 def attrsWellNsB (scope : Scope) (attrs : List NSAttr) : Bool :=
   attrs.all (fun a => wellSpelledB a.pieces) &&
+  (declsOf attrs).all (fun d => !reservedDecl d.1 d.2) &&
   decide ((declsOf attrs).map Prod.fst).Nodup &&
   decide ((attrsOf scope attrs).map Prod.fst).Nodup &&
   (ordinary attrs).all (fun a => a.pfx.text.isEmpty || (scope.lookup a.pfx.text).isSome)
 
 theorem attrsWellNsB_sound (scope : Scope) (attrs : List NSAttr) (h : attrsWellNsB scope attrs = true) :
     attrsWellNs scope attrs := by
-  simp only [attrsWellNsB, Bool.and_eq_true, List.all_eq_true, decide_eq_true_eq, Bool.or_eq_true] at h
-  obtain ⟨⟨⟨h1, h2⟩, h3⟩, h4⟩ := h
-  refine ⟨fun a ha => wellSpelledB_sound _ (h1 a ha), h2, h3, ?_⟩
+  simp only [attrsWellNsB, Bool.and_eq_true, List.all_eq_true, decide_eq_true_eq, Bool.or_eq_true,
+    Bool.not_eq_true'] at h
+  obtain ⟨⟨⟨⟨h1, h0⟩, h2⟩, h3⟩, h4⟩ := h
+  refine ⟨fun a ha => wellSpelledB_sound _ (h1 a ha), h0, h2, h3, ?_⟩
   intro a ha hne
   rcases h4 a ha with h | h
   · exact absurd (List.isEmpty_iff.mp h) hne
@@ -103,7 +105,7 @@ def NSNode.wellB : Scope → NSNode → Bool
     attrsWellNsB (scope.push (declsOf attrs)) attrs && ((scope.push (declsOf attrs)).lookup pfx.text).isSome
   | _, .chars parts => parts.all SPart.wellB
   | _, .comment _ _ => true
-  | _, .pi _ _ _ => true
+  | _, .pi target _ _ => !isReservedPiTarget target.text
 where
   wellListB : Scope → List NSNode → Bool
     | _, [] => true
@@ -122,7 +124,7 @@ theorem NSNode.wellB_sound : ∀ (n : NSNode) (scope : Scope), n.wellB scope = t
     simp only [NSNode.wellB, List.all_eq_true] at h
     exact fun p hp => SPart.wellB_sound p (h p hp)
   | .comment _ _, _, _ => trivial
-  | .pi _ _ _, _, _ => trivial
+  | .pi _ _ _, _, h => by simpa [NSNode.wellB, NSNode.Well] using h
 theorem NSNode.wellListB_sound : ∀ (ns : List NSNode) (scope : Scope),
     NSNode.wellB.wellListB scope ns = true → NSNode.Well.wellList scope ns
   | [], _, _ => trivial
